@@ -12,6 +12,7 @@ import (
 	"regexp"
 	"runtime"
 	"runtime/debug"
+	"strconv"
 	"strings"
 	"sync"
 	"sync/atomic"
@@ -602,6 +603,12 @@ func (env *Env) run(c *Case) *Result {
 		return fmt.Errorf("verif: unknown op %q", c.Op)
 	}
 
+	if c.FS != nil && c.FS.Umask != "" {
+		if m, err := strconv.ParseUint(c.FS.Umask, 8, 32); err == nil {
+			old := syscall.Umask(int(m))
+			defer syscall.Umask(old)
+		}
+	}
 	before := goroutineIDs()
 	start := time.Now()
 	err := func() (err error) {
